@@ -286,6 +286,11 @@ where
                         continue;
                     }
                     let (result, overflow) = dist[i][k].overflowing_add(dist[k][j]);
+                    // two negative terms whose sum is below `K::min()`: with representable
+                    // shortest distances only a negative cycle gets there
+                    if overflow && dist[i][k] < K::default() {
+                        return Err(NegativeCycle(()));
+                    }
                     if !overflow && dist[i][j] > result {
                         dist[i][j] = result;
                         if let Some(prev) = m_prev {
